@@ -465,6 +465,25 @@ func Refine(t *rapid.T, v spec.V, dynPos bool) spec.V {
 	switch {
 	case v.T.K == spec.KNumber:
 		x := v.N.Float()
+		if !x.IsInf() && rapid.IntRange(0, 11).Draw(t, "longbounds") == 0 {
+			// Two bounds whose decimal text is long (a many-digit number with a
+			// large negative exponent on the side next to zero, a huge one on
+			// the far side): together they make a refinement description of
+			// more than a kilobyte. The witness lies between them.
+			digits := strings.Repeat("123456789", rapid.IntRange(9, 16).Draw(t, "ndigits"))
+			tiny := spec.NParse("1." + digits + "e-390")
+			negTiny := spec.NParse("-1." + digits + "e-390")
+			huge := spec.NParse("9." + digits + "e520")
+			negHuge := spec.NParse("-9." + digits + "e520")
+			if x.Sign() >= 0 && x.Cmp(huge.Float()) < 0 {
+				r.Lo, r.LoInc, r.Hi, r.HiInc = &negTiny, rapid.Bool().Draw(t, "loinc"), &huge, rapid.Bool().Draw(t, "hiinc")
+				break
+			}
+			if x.Sign() < 0 && x.Cmp(negHuge.Float()) > 0 {
+				r.Lo, r.LoInc, r.Hi, r.HiInc = &negHuge, rapid.Bool().Draw(t, "loinc"), &tiny, rapid.Bool().Draw(t, "hiinc")
+				break
+			}
+		}
 		sides := rapid.IntRange(1, 3).Draw(t, "sides")
 		if sides&1 != 0 {
 			if b, inc, ok := numBound(t, *v.N, x, -1); ok {
